@@ -33,6 +33,7 @@ pub struct BuildSpec {
     pub mask: Option<usize>,    // 0..7
     pub grp: u64,               // same-payload group for C08 (0 = none)
     pub tag: String,            // coverage cell
+    pub lite: bool,             // judge outcome and reported fields only (no matrix in the event)
 }
 
 impl BuildSpec {
@@ -154,9 +155,20 @@ pub fn outcome_json(o: &Outcome) -> Value {
 }
 
 pub fn build_event(id: u64, spec: &BuildSpec, out: &Outcome) -> Value {
+    let mut o = outcome_json(out);
+    if spec.lite {
+        if let Some(m) = o.as_object_mut() { m.remove("vals"); m.remove("types"); }
+    }
+    // very long constant-content inputs travel as [byte, length]
+    if spec.input.len() > 20_000 && spec.input.iter().all(|&b| b == spec.input[0]) {
+        return json!({
+            "ev": "Build", "id": id, "tag": spec.tag, "grp": spec.grp, "lite": spec.lite as u8,
+            "input": [], "rep": [spec.input[0], spec.input.len()], "opts": spec.opts_json(), "out": o,
+        });
+    }
     json!({
-        "ev": "Build", "id": id, "tag": spec.tag, "grp": spec.grp,
-        "input": spec.input, "opts": spec.opts_json(), "out": outcome_json(out),
+        "ev": "Build", "id": id, "tag": spec.tag, "grp": spec.grp, "lite": spec.lite as u8,
+        "input": spec.input, "opts": spec.opts_json(), "out": o,
     })
 }
 
